@@ -123,3 +123,28 @@ package golang
 //@   ensures result != nil && fresh(result) && result.doInitialisms && result.useTemplate == "default" && result.features == defaultFeatures
 //@   ensures ncalls("cu.namingStyle.UseInitialisms") >= 1 && callarg("cu.namingStyle.UseInitialisms", 0)
 //@   modifies *
+
+// A run of the backend starts with no error recorded (C07: the outcome of a run does not depend on earlier runs in
+// the same process -- SDK use, several -g targets): the first stage finds g.err == nil and this run's request.
+//@ func (g *GoBackend) prepareUtilities()
+//@   trusted
+//@   requires g != nil
+//@   modifies *
+//@   ensures g.utils != nil && g.log == old(g.log) && g.res == old(g.res) && g.req == old(g.req)
+//@ func (g *GoBackend) removeStreamingFunctions(ast *parser.Thrift)
+//@   trusted
+//@   modifies parser.Service.Functions
+//@ func (g *GoBackend) prepareTemplates()
+//@   trusted
+//@   modifies *
+//@ func (g *GoBackend) fillRequisitions()
+//@   trusted
+//@   modifies *
+//@ func (g *GoBackend) executeTemplates()
+//@   trusted
+//@   modifies *
+//@ func (g *GoBackend) Generate(req *plugin.Request, log backend.LogFunc) *plugin.Response
+//@   requires g != nil && req != nil
+//@   maypanic
+//@   modifies *
+//@   site call:g.prepareUtilities assert g.err == nil && g.req == req
